@@ -44,6 +44,14 @@ def run(chk, replay=None):
         if "shape" in bad:
             bad["shape"] = "[%d tokens]" % len(bad["shape"])
         chk.violation("C05:roundtrip", trace, "case %d rejected by Trace_C05: %s" % (matched + 1, str(bad)[:600]))
+    if ok:
+        # second pass: does the real text layout still match the writer of Format.tla (on which MC_Format's theorem rests)?
+        res2 = vt.tlc("Trace_C05", env={"TRACE": trace, "LAYOUT": "1"}, workers=1, tag="C05", timeout=1200)
+        chk.add_tlc("layout pass (text shape = shape of Format!WChk)", res2)
+        chk.cov["layout_matches_spec"] = res2.rc == 0
+        if res2.rc != 0:
+            print("NOTE property=C05 the layout of the checkpoint text no longer matches Format.tla (case %s): the round trip still holds on everything "
+                  "tried, but MC_Format's theorem is about the specification's layout - update Format.tla" % res2.matched)
     if thorough and ok and not replay:
         import copy
         bad = copy.deepcopy(rows)
